@@ -3,7 +3,7 @@ From PV.Spec Require Import MappingSpec ViewSpec ExportSpec.
 Require Import ExtrOcamlBasic.
 Extraction Language OCaml.
 Extraction "../ocaml/gen/exports_model.ml"
-  view_by view_cstr by_spec cstr_spec
+  view_by view_cstr by_spec cstr_spec get_export_ordinal get_export_name get_export_import
   index hint ordinal name_of_hint name_linear name hint_name import_ name_lookup
   iter iter_names iter_name_indices check_sorted get_proc_address
   symbol_from_rva_orig name_lookup_orig iter_name_indices_orig
